@@ -66,6 +66,9 @@ _REX = rex.module()
 
 def step_prefix(i, number, indent):
     # Metric-FF: "step %4d: " for the first step, "     %4d: " afterwards
+    if indent < 0:
+        # flush left: only the first step carries the word "step", the numbers of the later steps start in column 0
+        return ("step " if i == 0 else "") + str(number) + ": "
     lead = "step" if i == 0 else "    "
     return lead + " " * indent + str(number) + ": "
 
@@ -476,6 +479,11 @@ def tasks_for(tier, seed):
             for ws in word_shapes_1[:2] + word_shapes_2[:1]:
                 tasks.append({"kind": "ff", "entry": entry, "word_lens": ws, "trailer_len": 0, "numbers": [0, 1, 2][: len(ws)],
                               "indent": 4, "header": header, "trailer": 0, "crlf": False, "blank_after_plan": True, "free_line": False})
+    # step numbers flush left (column 0 from the second step on), one- and two-digit numbers
+    for entry in ("content", "status", "parse_plan"):
+        for ws, numbers in (([[1], [1]], [0, 1]), ([[2], [1], [1, 1]], [0, 1, 2]), ([[1], [2], [1]], [9, 10, 11])):
+            tasks.append({"kind": "ff", "entry": entry, "word_lens": ws, "trailer_len": 0, "numbers": numbers, "indent": -1,
+                          "header": 1, "trailer": 0, "crlf": False, "blank_after_plan": True, "free_line": False})
     # the log ends right after the newline of the last step / after one blank line / after a free line without the summary
     for entry in ("content", "status", "parse_plan"):
         for ws in word_shapes_1[:4] + word_shapes_2[:2]:
